@@ -923,6 +923,8 @@ package sse
 //@   ensures validator_sees_the_response_of_the_request: forall(x, old(ncalls()), ncalls(), iscall(x, "ResponseValidator") ==> forall(y, x+1, ncalls(), !isdo(y)))
 //@   ensures no_retry_bookkeeping_inside: forall(x, old(ncalls()), ncalls(), !iscall(x, "OnRetry") && !iscall(x, "TimerReset"))
 //@   ensures accepted_response_restarts_the_schedule_before_the_body_is_read: forall(x, old(ncalls()), ncalls(), iscall(x, "ResponseValidator") && cret(x, "ResponseValidator", 0) == nil ==> iscall(x+1, "setRetry") && carg(x+1, "setRetry", 0) == 0)
+//@   ensures final_request_error_matches_the_context_error: forall(x, old(ncalls()), ncalls(), isdo(x) && cret(x, "Do", 1) != nil && !shouldRetry ==> erris(cret(x, "Do", 1), lastctxerrval()))
+//@   ensures final_read_error_matches_the_context_error: forall(x, old(ncalls()), ncalls(), iscall(x, "ResponseValidator") && cret(x, "ResponseValidator", 0) == nil && !shouldRetry ==> erris(err, lastctxerrval()))
 //@   ensures request_error_is_judged_against_the_context_afterwards: forall(x, old(ncalls()), ncalls(), isdo(x) && cret(x, "Do", 1) != nil ==> lastctxerr() == ncalls())
 //@   ensures read_outcome_is_judged_against_the_context_afterwards: forall(x, old(ncalls()), ncalls(), iscall(x, "ResponseValidator") && cret(x, "ResponseValidator", 0) == nil ==> lastctxerr() == ncalls() - 1 && iscall(ncalls() - 1, "Close"))
 
